@@ -74,6 +74,7 @@ class Ctx:
         self.fact_cache = set()
         self.in_merged = 0
         self.axioms = []  # formulas valid on every path (input well-formedness, UF axiom instances)
+        self.uf_fact_ids = set()  # ids of the axioms that are UF axiom instances (tried without them first)
 
     # -- naming --------------------------------------------------------------------------
     def fresh_name(self, base):
@@ -115,6 +116,7 @@ class Ctx:
                     return
         self.fact_cache.add(key)
         self.axioms.append(z)
+        self.uf_fact_ids.add(key)
 
     def global_axiom(self, z):
         key = z.get_id()
@@ -132,7 +134,8 @@ class Ctx:
         if self.bound:
             # an obligation raised under bound variables: must hold for all values of them in scope
             raise Unsupported(f"obligation {name} under a bound variable")
-        self.obligations.append(dict(name=name, goal=gz, pc=list(self.axioms) + list(self.pc), meta=meta or {}))
+        self.obligations.append(dict(name=name, goal=gz, pc=list(self.axioms) + list(self.pc), meta=meta or {},
+                                     uf_fact_ids=set(self.uf_fact_ids)))
 
     def oblige_implicit(self, kind, goal_z):
         if not self.implicit_on:
@@ -302,6 +305,7 @@ class Ctx:
             c, s = self.uf("cos", 1)(zs[0]), self.uf("sin", 1)(zs[0])
             self.fact(c * c + s * s == 1)
             self.fact(z3.And(c >= -1, c <= 1, s >= -1, s <= 1))
+            self.fact(z3.Implies(zs[0] == 0, z3.And(c == 1, s == 0)))
         elif name == "exp":
             self.fact(t > 0)
             self.fact((zs[0] <= 0) == (t <= 1))
@@ -863,6 +867,13 @@ class Interp:
         if mod.startswith("abtem"):
             m = extract.module_for_dotted(mod)
             if m is not None:
+                if name in m.imports and name not in m.functions and name not in m.classes:
+                    # optional dependencies (`try: import cupy as cp / except: cp = None`): trust the live module
+                    try:
+                        if getattr(importlib.import_module(mod), name, 0) is None:
+                            return None
+                    except Exception:  # noqa: BLE001
+                        pass
                 if name in m.functions:
                     return m.functions[name]
                 if name in m.classes:
